@@ -51,6 +51,11 @@ def run(ck, rng, tier):
         xs = gen_knots(rng, n, spacing, irregular)
         kind = rng.choice(("general", "general", "linear"))
         ys = [2.5 * x / spacing - 1.0 for x in xs] if kind == "linear" else [rng.gauss(0, 1) * rng.choice((1.0, 100.0)) for _ in xs]
+        if c % 8 == 5 and kind != "linear":
+            # ordinates of any size: far above the library's missing-value code (1e8 .. 3e8) or far below its negative
+            off = rng.choice((1.5e8, 3e8, -2e8))
+            ys = [off + 1e3 * y for y in ys]
+            ck.count("ordinates of order 1e8")
         # query points: the knots themselves and interior points
         q = list(xs) + [xs[i] + (xs[i + 1] - xs[i]) * rng.uniform(0.1, 0.9) for i in range(n - 1)]
         lines.append("spline %s %s" % (vf.fmt_mat([[x, y] for x, y in zip(xs, ys)]), vf.fmt_vec(q)))
@@ -67,6 +72,17 @@ def run(ck, rng, tier):
         x0 = (xmin + np.array([rng.uniform(-4, 4) for _ in range(dim)])).tolist()
         step = [rng.choice((0.5, 1.0, -0.7, 2.0)) for _ in range(dim)]
         iters = rng.choice((3, 10, 4000))
+        if c < 4:
+            # exact ties: a circular bowl with the start simplex placed so that the reflected point has EXACTLY the
+            # objective value of the worst vertex (dyadic data, no rounding): x0 = xmin + e1, steps (-2, s, ...)
+            dim = 2 + c // 2
+            A = np.eye(dim)
+            xmin = np.array([float(rng.randint(-3, 3)) for _ in range(dim)])
+            b = -2 * A @ xmin
+            x0 = (xmin + np.array([1.0] + [0.0] * (dim - 1))).tolist()
+            step = [-2.0] + [float(rng.choice((3, 4, 10)))] * (dim - 1)
+            iters = (10, 4000)[c % 2]
+            ck.count("nm exact tie between the reflected and the worst vertex")
         lines.append("nm %s %s %s %s 1e-13 %d" % (vf.fmt_mat(A.tolist()), vf.fmt_vec(b.tolist()), vf.fmt_vec(x0), vf.fmt_vec(step), iters))
         meta.append(("nm", A, b, x0, step, iters, xmin))
         ck.count("nm dim %d" % dim)
